@@ -4,7 +4,7 @@
     executable instance Lib/Pda.v (Gallina SHA-256 + Ed25519 point test) is compared with
     `Pubkey::try_find_program_address` on every run (partial: not a theorem about the
     curve25519 / sha2 crates). *)
-From SplVerif Require Import Lib.Base Resolution.Seeds Resolution.SeedsProofs Resolution.Account Resolution.Proofs.
+From SplVerif Require Import Lib.Base Lib.Sha256 Lib.PdaSpec Resolution.Seeds Resolution.SeedsProofs Resolution.Account Resolution.Proofs.
 Local Open Scope N_scope.
 
 Theorem C05_no_panic : forall find_pda e ix pid get, length (e_cfg e) = 32%nat ->
@@ -87,6 +87,21 @@ Theorem C05_ctor_seeds_resolves : forall find_pda ss s w e ix pid get vs,
   resolve find_pda e ix pid get =
   match find_pda vs pid with Some k => Ok {| m_key := k; m_signer := s; m_writable := w |} | None => Err E_RES end.
 Proof. exact ctor_seeds_resolves. Qed.
+(** "the canonical program-derived address": the search the correspondence check runs
+    (Lib/Pda.v instantiates [on_curve] with the Ed25519 test written in Gallina; SHA-256 is
+    Lib/Sha256.v) returns, for every seed list, program id and curve test, the address of the
+    highest bump 255, 254, ... whose hash is off the curve, and that address is
+    SHA-256(seeds ++ [bump] ++ program id ++ "ProgramDerivedAddress") *)
+Theorem C05_canonical_bump : forall on_curve seeds pid k b,
+  try_find_with on_curve seeds pid = Some (k, b) ->
+  b <= 255 /\ cpa_with on_curve (seeds ++ [[b8 b]]) pid = CpaOk k /\
+  forall b', b < b' <= 255 -> cpa_with on_curve (seeds ++ [[b8 b']]) pid = CpaInvalidSeeds.
+Proof. exact try_find_with_canonical. Qed.
+Theorem C05_derived_address : forall on_curve seeds pid k,
+  cpa_with on_curve seeds pid = CpaOk k ->
+  k = sha256 (concat seeds ++ pid ++ PDA_MARKER) /\ on_curve k = false /\
+  (length seeds <= 16)%nat /\ Forall (fun s => (length s <= 32)%nat) seeds /\ length k = 32%nat.
+Proof. exact cpa_with_spec. Qed.
 Theorem C05_ctor_external : forall idx ss s w,
   (128 <= Byte.to_N idx -> exists c, new_external_pda idx ss s w = Err c) /\
   (forall e, new_external_pda idx ss s w = Ok e ->
